@@ -260,7 +260,7 @@ func (x *Exec) buildQueryS(o *Obligation, depth int, rounds int, qfMode bool, sl
 	assumes = append(assumes, atomAxioms(assumes, o.Goal)...)
 	goal := o.Goal
 	if qfMode {
-		assumes, goal = qfWeaken(assumes, goal, rounds)
+		assumes, goal = qfWeakenOrder(assumes, goal, rounds, x.qfForward)
 		return &Query{Name: o.Name, Assumes: assumes, Goal: goal}
 	}
 	assumes, goal = expandQuantifiers(assumes, goal, rounds)
@@ -274,8 +274,10 @@ func dischargeVC(x *Exec, o *Obligation, opts verifyOpts) (Result, bool) {
 	var r, qfRes Result
 	disagree := false
 	prevText := ""
-	{
-		q := x.buildQueryM(o, opts.depth, 6, true)
+	for _, forward := range []bool{false, true} {
+		xx := *x
+		xx.qfForward = forward
+		q := (&xx).buildQueryM(o, opts.depth, 6, true)
 		text := q.smtlib(false, "z3")
 		h := sha256.Sum256([]byte("qf" + text))
 		key := string(h[:])
@@ -293,8 +295,10 @@ func dischargeVC(x *Exec, o *Obligation, opts verifyOpts) (Result, bool) {
 		if qr.Status == "unsat" {
 			return qr, disagree
 		}
-		r = qr
-		qfRes = qr
+		if !forward {
+			r = qr
+			qfRes = qr
+		}
 	}
 	for _, rounds := range []int{1, 3} {
 		q := x.buildQueryR(o, opts.depth, rounds)
